@@ -13,8 +13,10 @@ import (
 
 // FullConf describes a real Server with mixed listeners.
 type FullConf struct {
-	Listeners   []string `json:"listeners"`       // tcp, tcptls, ws, wss, inproc
-	Trace       bool     `json:"trace,omitempty"` // TCP listeners and TCP clients are configured with a TraceWriter
+	Listeners   []string `json:"listeners"`           // tcp, tcptls, ws, wss, inproc
+	Trace       bool     `json:"trace,omitempty"`     // TCP listeners and TCP clients are configured with a TraceWriter
+	Overlap     bool     `json:"overlap,omitempty"`   // two handlers per kind with overlapping predicates (a narrow one, then the catch-all): the first match gets the envelope
+	AutoPing    bool     `json:"auto_ping,omitempty"` // built with AutoReplyPings(), registered ahead of the other handlers
 	Enc         []string `json:"enc"`
 	Comp        []string `json:"comp"`
 	Buf         int      `json:"buf"`
@@ -144,6 +146,22 @@ func StartFull(w *World, conf FullConf, basePort int, setup func(b *lime.ServerB
 				return f.OnEnv(ctx, kind, env, s)
 			}
 			return nil
+		}
+		if conf.AutoPing {
+			b.AutoReplyPings()
+		}
+		if conf.Overlap {
+			// a narrow handler per kind ahead of the catch-all: envelopes whose id ends in an even
+			// digit match both, and go to the first only
+			even := func(id string) bool { return len(id) > 0 && (id[len(id)-1]-'0')%2 == 0 }
+			b.MessageHandlerFunc(func(m *lime.Message) bool { return even(m.ID) }, func(ctx context.Context, m *lime.Message, s lime.Sender) error { return call(ctx, KMessage, m, s) })
+			b.NotificationHandlerFunc(func(n *lime.Notification) bool { return even(n.ID) }, func(ctx context.Context, n *lime.Notification) error { return call(ctx, KNotification, n, nil) })
+			b.RequestCommandHandlerFunc(func(c *lime.RequestCommand) bool { return even(c.ID) }, func(ctx context.Context, c *lime.RequestCommand, s lime.Sender) error {
+				return call(ctx, KRequest, c, s)
+			})
+			b.ResponseCommandHandlerFunc(func(c *lime.ResponseCommand) bool { return even(c.ID) }, func(ctx context.Context, c *lime.ResponseCommand, s lime.Sender) error {
+				return call(ctx, KResponse, c, s)
+			})
 		}
 		b.MessagesHandlerFunc(func(ctx context.Context, m *lime.Message, s lime.Sender) error { return call(ctx, KMessage, m, s) })
 		b.NotificationsHandlerFunc(func(ctx context.Context, n *lime.Notification) error { return call(ctx, KNotification, n, nil) })
@@ -316,6 +334,7 @@ func GenFullConf(t *simrt.Tape, nListeners int) FullConf {
 	c.Buf = []int{0, 1, 2, 8}[t.Draw(4)]
 	c.RegMode = t.Draw(2)
 	c.Trace = t.Draw(5) == 0
+	c.Overlap = t.Draw(3) == 0
 	return c
 }
 
